@@ -1,2 +1,22 @@
-(* C07 - property statements (theorems are being added) *)
-From Asherah Require Import Envelope.Session.
+(* C07 - decrypt yields the original plaintext or an error.  For EVERY record value whatsoever (modified,
+   spliced, junk, nil fields), every world and every fault plan: if DecryptDataRowRecord returns a plaintext then
+   the record passed the partition guard, its encrypted key is a genuine seal of some data key under the
+   intermediate key's material and its Data is a genuine seal of exactly the returned plaintext under exactly
+   that data key.  With C03 (a data key seals one payload) the plaintext is the payload originally encrypted.
+   Partial: absence of Go panics is decided by the harness (recover) and the correspondence; the symbolic AEAD
+   (a modified ciphertext opens under no key) is the cryptographic assumption. *)
+From Asherah Require Import Envelope.Session Envelope.Local.
+
+Theorem C07_decrypt_authentic : forall e r w p w',
+  decrypt_data_row_record e r w = (inr p, w') ->
+  exists key pm ikm drk n1 n2,
+    d_key r = Some key /\ e_parent key = Some pm /\ is_valid_ik_id (en_part e) (km_id pm) = true /\
+    e_key key = CAead ikm n1 (PKey drk) /\ d_data r = CAead drk n2 p.
+Proof. exact decrypt_authentic. Qed.
+Print Assumptions C07_decrypt_authentic.
+
+Theorem C07_modified_ciphertexts_rejected : forall ik key data w p w',
+  decrypt_row ik key data w = (inr p, w') ->
+  exists ikm drk n1 n2, e_key key = CAead ikm n1 (PKey drk) /\ data = CAead drk n2 p.
+Proof. exact decrypt_row_authentic. Qed.
+Print Assumptions C07_modified_ciphertexts_rejected.
